@@ -212,7 +212,7 @@ class Device(object):
         self.dirs = spec.get('dirs', {})
         self.cmds = spec.get('cmds', {})
         self.stall = spec.get('stall')          # C11
-        self.corrupt = spec.get('corrupt')      # C03 fault batch
+        self.corrupt = dict(spec['corrupt']) if spec.get('corrupt') else None      # C03 fault batch (copied: the device marks it done)
         self._content_cache = {}
         # monitors / ground truth that survive sessions
         self.c02 = []            # wire-format problems
@@ -353,7 +353,7 @@ class Device(object):
 
     def _send_cnxn(self, now, lat=None):
         banner = self.spec.get('banner', 'device::ro.product.name=sim;ro.product.model=SimAdb;features=shell_v2,cmd').encode()
-        self._conn_push(Pkt(W.A_CNXN, W.A_VERSION, self.maxdata, banner, kind='cnxn'), now, lat)
+        self._conn_push(Pkt(W.A_CNXN, int(self.spec.get('version', W.A_VERSION)), self.maxdata, banner, kind='cnxn'), now, lat)
         self.sess['cnxn_sent'] = True
         self.sess['cnxn_maxdata'] = self.maxdata
         self.connected = True
@@ -752,6 +752,19 @@ class Device(object):
             b[20:24] = struct.pack('<I', w ^ 0xFFFFFFFF)
             p.note = 'corrupt-cmd'
             self.probe('corrupt_cmd')
+            how = c.get('payload')
+            if how and len(b) > W.HEADER:
+                if how == 'flip':
+                    # the garbage does not stop at the command word: the payload no longer matches its checksum either
+                    off = W.HEADER + (c.get('off', 0) % (len(b) - W.HEADER))
+                    b[off] ^= 1 << (c.get('bitno', 0) % 8)
+                    self.probe('corrupt_cmd_and_payload')
+                else:
+                    # ... or the announced payload never arrives (the device died after the header)
+                    del b[W.HEADER:]
+                    self.stall = {'kind': 'silence', 'after_pkts': 0}
+                    self.stalled = True
+                    self.probe('corrupt_cmd_payload_withheld')
         if p.kind == 'noise':
             self.probe('corrupt_noise_packet')
         return bytes(b)
